@@ -1953,6 +1953,100 @@ pub fn judge_c15_case(ctx: &mut Ctx, suite: &str, cs: u64, case: &Case, src: &st
 
 // ---------------------------------------------------------------------------------------------
 
+/// Known finding KF3 (C05): a header column that is at once the column of an input `B_out` and the `_out` (expected) column of
+/// a bidirectional signal `B`.  An `X` there must be expanded for the input (two executions, 0 then 1) while the expected
+/// value of `B` stays the row's `X`; the crate reads the expected value from the expanded entry (0, then 1).  The probe runs
+/// exactly that input and attributes to KF3 only that signature; any other deviation on it is reported as a violation.
+pub fn probe_kf3(ctx: &mut Ctx, suite: &str) {
+    use digital_test_runner::{ExpectedValue, InputEntry, InputValue, OutputEntry, OutputValue, ParsedTestCase, Signal, TestDriver};
+    if ctx.only_suite.as_deref().map(|s| s != suite).unwrap_or(false) {
+        return;
+    }
+    #[derive(Debug)]
+    struct NoErr;
+    impl std::fmt::Display for NoErr {
+        fn fmt(&self, f: &mut std::fmt::Formatter<'_>) -> std::fmt::Result {
+            write!(f, "no error")
+        }
+    }
+    impl std::error::Error for NoErr {}
+    struct Dut(Signal);
+    impl TestDriver for Dut {
+        type Error = NoErr;
+        fn write_input_and_read_output(&mut self, _inputs: &[InputEntry<'_>]) -> Result<Vec<OutputEntry<'_>>, NoErr> {
+            Ok(vec![OutputEntry { signal: &self.0, value: OutputValue::Value(1) }])
+        }
+    }
+    let text = "signals=[input B_out:1 default 0, bidirectional B:1 default 0] source=\"B_out\\nX\\n\" device answers B=1".to_string();
+    ctx.tick(&text);
+    ctx.report.evaluations += 1;
+    ctx.report.bump("kf3-probe");
+    let outcome = std::panic::catch_unwind(|| {
+        let signals = vec![Signal::input("B_out", 1, 0), Signal::bidirectional("B", 1, 0)];
+        let test = match "B_out\nX\n".parse::<ParsedTestCase>() {
+            Ok(p) => match p.with_signals(signals.clone()) {
+                Ok(t) => t,
+                Err(e) => return Err(format!("binding refused: {e}")),
+            },
+            Err(e) => return Err(format!("parse error: {e}")),
+        };
+        let mut dut = Dut(signals[1].clone());
+        let it = match test.try_iter(&mut dut) {
+            Ok(it) => it,
+            Err(e) => return Err(format!("constructor failed: {e}")),
+        };
+        let mut rows = vec![];
+        for r in it {
+            match r {
+                Ok(row) => {
+                    let inp: Vec<InputValue> = row.inputs.iter().filter(|i| i.signal.name == "B_out").map(|i| i.value).collect();
+                    let exp: Vec<ExpectedValue> = row.outputs.iter().filter(|o| o.signal.name == "B").map(|o| o.expected).collect();
+                    rows.push((inp, exp));
+                }
+                Err(e) => return Err(format!("error item: {e}")),
+            }
+        }
+        Ok(rows)
+    });
+    let rows = match outcome {
+        Err(_) => {
+            add_finding(ctx, "oracle", suite, 0, format!("the shared-column input panics: {}", imp::take_panic()), text, &[], &[]);
+            return;
+        }
+        Ok(Err(e)) => {
+            add_finding(ctx, "oracle", suite, 0, format!("the shared-column input does not run: {e}"), text, &[], &[]);
+            return;
+        }
+        Ok(Ok(rows)) => rows,
+    };
+    let shown: Vec<String> = rows.iter().map(|(i, e)| format!("B_out={i:?} expected(B)={e:?}")).collect();
+    let inputs_ok = rows.len() == 2
+        && rows[0].0 == vec![InputValue::Value(0)]
+        && rows[1].0 == vec![InputValue::Value(1)];
+    if !inputs_ok {
+        add_finding(ctx, "oracle", suite, 0, format!("an X in an input column must give two executions, 0 then 1: {shown:?}"), text, &shown, &[]);
+        return;
+    }
+    let as_stated = rows.iter().all(|(_, e)| e == &vec![ExpectedValue::X]);
+    let kf3 = rows[0].1 == vec![ExpectedValue::Value(0)] && rows[1].1 == vec![ExpectedValue::Value(1)];
+    if as_stated {
+        ctx.report.bump("kf3-absent");
+    } else if kf3 {
+        add_finding(
+            ctx,
+            "known",
+            suite,
+            0,
+            "KF3 an X in a header column that is both the column of an input and the `_out` column of a bidirectional signal is expanded for the expected value too: the bidirectional signal is checked against 0, then 1, instead of the row's X (known_findings.json)".to_string(),
+            text,
+            &shown,
+            &[],
+        );
+    } else {
+        add_finding(ctx, "oracle", suite, 0, format!("the expected value of B is neither the row's X nor the known deviation: {shown:?}"), text, &shown, &[]);
+    }
+}
+
 pub fn run_property(ctx: &mut Ctx) {
     let t = ctx.thorough();
     let k = |q: u64, th: u64| if t { th } else { q };
@@ -1960,6 +2054,9 @@ pub fn run_property(ctx: &mut Ctx) {
     crate::corpus::run_corpus(ctx);
     match prop.as_str() {
         "C02" | "C05" | "C06" => {
+            if prop == "C05" && ctx.part == 0 {
+                probe_kf3(ctx, "kf3-probe");
+            }
             suite_rows_enum(ctx, "rows-enum");
             suite_run(ctx, "run", k(6000, 60000));
         }
